@@ -15,6 +15,7 @@
   Core Lean only.
 -/
 import PolyVerif.Gen.Transform
+import PolyVerif.Gen.Trees
 
 namespace PolyVerif
 namespace Tree
@@ -185,11 +186,12 @@ def intersectsRayInRange (b : AABB α) (o d : V3 α) (mn mx : α) : Bool :=
   let rz := slabComponent o.z d.z ry.2.1 ry.2.2 (boxMin.z - kEps) (boxMax.z + kEps)
   if rz.1 then false else true
 
-/-- the element kinds whose geometry is modelled concretely -/
+/-- the element kinds (geometry modelled concretely) -/
 inductive Prim (α : Type) where
   | point (p : V3 α)                    -- modeling.scopedPoint
   | seg (a b : V3 α)                    -- modeling.scopedLine
   | box (b : AABB α)                    -- trees.BoundingBoxElement
+  | tri (a b c : V3 α)                  -- modeling.scopedTri
 
 /-- `NewAABBFromPoints(a, b)` (aabb.go:52-73).  The Go loop starts from ±Inf; for non-NaN
     inputs `min(v, +Inf) = v`, so the fold is started at the first point. -/
@@ -199,15 +201,50 @@ def aabbFromPoints2 (a b : V3 α) : AABB α :=
   let area := mx.Sub mn
   NewAABB ((area.Scale (lit 1 2)).Add mn) area
 
+/-- `NewAABBFromPoints(a, b, c)` -/
+def aabbFromPoints3 (a b c : V3 α) : AABB α :=
+  let mn := V3.New (min c.x (min b.x a.x)) (min c.y (min b.y a.y)) (min c.z (min b.z a.z))
+  let mx := V3.New (max c.x (max b.x a.x)) (max c.y (max b.y a.y)) (max c.z (max b.z a.z))
+  let area := mx.Sub mn
+  NewAABB ((area.Scale (lit 1 2)).Add mn) area
+
+/-- `scopedTri.PointInSide` (modeling/tri.go:33-56) -/
+def triPointInSide (pa pb pc p : V3 α) : Bool :=
+  let a := pa.Sub p
+  let b := pb.Sub p
+  let c := pc.Sub p
+  let u := b.Cross c
+  let v := c.Cross a
+  if u.Dot v < ((0 : Nat) : α) then false
+  else
+    let w := a.Cross b
+    decide (((0 : Nat) : α) ≤ u.Dot w)
+
+/-- `scopedTri.ClosestPoint` (modeling/tri.go:58-86) -/
+def triClosestPoint (pa pb pc p : V3 α) : V3 α :=
+  let closestPoint := (NewPlaneFromPoints pa pb pc).ClosestPoint p
+  if triPointInSide pa pb pc closestPoint then closestPoint
+  else
+    let c1 := (NewLine3D pa pb).ClosestPointOnLine closestPoint
+    let c2 := (NewLine3D pb pc).ClosestPointOnLine closestPoint
+    let c3 := (NewLine3D pc pa).ClosestPointOnLine closestPoint
+    let mag1 := (closestPoint.Sub c1).LengthSquared
+    let mag2 := (closestPoint.Sub c2).LengthSquared
+    let mag3 := (closestPoint.Sub c3).LengthSquared
+    let m := min (min mag1 mag2) mag3
+    if m == mag1 then c1 else if m == mag2 then c2 else c3
+
 def Prim.boundingBox : Prim α → AABB α
   | .point p => NewAABB p V3.Zero
   | .seg a b => aabbFromPoints2 a b
   | .box b => b
+  | .tri a b c => aabbFromPoints3 a b c
 
 def Prim.closestPoint : Prim α → V3 α → V3 α
   | .point p, _ => p
   | .seg a b, v => (NewLine3D a b).ClosestPointOnLine v
   | .box b, v => b.ClosestPoint v
+  | .tri a b c, v => triClosestPoint a b c v
 
 /-- `elementReference` -/
 structure Elem (α : Type) where
